@@ -318,7 +318,8 @@ func fromLib(d protocol.RvDirective) *refDirective {
 	out := &refDirective{Bypass: d.Bypass, Eth: d.EthIface, Wlan: d.WlanIface, SSID: d.WlanSSID, Pass: d.WlanPass, ExtMech: d.ExtMechanism,
 		ExtArgs: hex.EncodeToString(d.ExtArguments)}
 	for _, u := range d.URLs {
-		out.URLs = append(out.URLs, u.String())
+		// scheme and host as the library holds them (url.String would percent-escape odd DNS text)
+		out.URLs = append(out.URLs, u.Scheme+"://"+u.Host)
 	}
 	if d.Delay%time.Second == 0 {
 		out.DelaySec = int64(d.Delay / time.Second)
